@@ -332,6 +332,9 @@ fn process_tcp_packet(
             }
         }
     };
+    // the table holds the flow under the client's key, whichever side sent this segment
+    let stored_key: FlowKey =
+        if is_client { flow_key } else { (dst_ip, src_ip, dst_port, src_port) };
 
     if let Some(flow) = tcp_flow {
         if !is_client
@@ -405,7 +408,7 @@ fn process_tcp_packet(
             // Remove from http_flows if both request and response are parsed
             if flow.client_http_parsed && flow.server_http_parsed {
                 debug!("Both HTTP request and response parsed, removing from http_flows early");
-                http_flows.remove(&flow_key);
+                http_flows.remove(&stored_key);
                 return Ok(observable_http_package);
             }
 
@@ -415,7 +418,7 @@ fn process_tcp_packet(
                 != 0
             {
                 debug!("Connection closed or reset");
-                http_flows.remove(&flow_key);
+                http_flows.remove(&stored_key);
             }
         }
     } else if tcp.get_flags() & pnet::packet::tcp::TcpFlags::SYN != 0 {
